@@ -121,10 +121,9 @@ class HTTP2Connection(ConnectionInterface):
                 local_settings_max_streams = (
                     self._h2_state.local_settings.max_concurrent_streams
                 )
-                self._max_streams_semaphore = Semaphore(local_settings_max_streams)
-
-                for _ in range(local_settings_max_streams - self._max_streams):
-                    self._max_streams_semaphore.acquire()
+                self._max_streams_semaphore = Semaphore(
+                    local_settings_max_streams, initial_value=self._max_streams
+                )
 
         self._max_streams_semaphore.acquire()
 
